@@ -31,7 +31,7 @@ H(l, z) == <<l>> \o z
 A(o, a) == Rec(o, "A", <<a>>)
 NS(o, n) == Rec(o, "NS", n)
 CN(o, n) == Rec(o, "CNAME", n)
-Z(apex, ips, serving, recs, cuts) == [apex |-> apex, ips |-> ips, serving |-> serving, recs |-> recs, cuts |-> cuts]
+Z(apex, ips, serving, recs, cuts) == [apex |-> apex, soa |-> apex, ips |-> ips, serving |-> serving, recs |-> recs, cuts |-> cuts]
 
 LModes == {"in", "in-noglue", "sib", "sib-noglue", "out", "lame", "self"}
 MModes == {"in", "sib-noglue", "out"}
@@ -68,6 +68,7 @@ Target(tmode) ==
       [] tmode = "tree22"    -> TreeRecs(2, 2)
       [] tmode = "tree23"    -> TreeRecs(2, 3)
       [] tmode = "tree34"    -> TreeRecs(3, 4)
+      [] tmode = "ent"       -> {A(H("x", H("w", L1)), "h2")}       \* w.l.t1 is an empty non-terminal: NODATA
       [] OTHER               -> {}
 
 Zones(lmode, mmode, tmode) ==
@@ -117,13 +118,18 @@ Conc(cv) ==
 \* address records get the type of their concrete address
 Typed(conc, r) == IF r.t = "A" /\ conc[r.d[1]].v = 6 THEN [r EXCEPT !.t = "AAAA"] ELSE r
 
-Net(lmode, mmode, tmode, inj, denyS, denyA, cv) ==
+\* where l.t1's server owns the SOA of its negative answers: its own apex, or outside its zone
+SoaModes == {"own", "parent", "sibling", "root"}
+SoaOwner(so) == CASE so = "parent" -> T1 [] so = "sibling" -> M1 [] so = "root" -> Root [] OTHER -> L1
+
+Net(lmode, mmode, tmode, inj, denyS, denyA, cv, so) ==
     LET conc == Conc(cv) IN
-    [zones |-> {[z EXCEPT !.recs = {Typed(conc, r) : r \in z.recs}] : z \in Zones(lmode, mmode, tmode)},
+    [zones |-> {[z EXCEPT !.recs = {Typed(conc, r) : r \in z.recs}, !.soa = IF z.apex = L1 THEN SoaOwner(so) ELSE z.apex] :
+                z \in Zones(lmode, mmode, tmode)},
      roots |-> {"a1"}, inj |-> {[x EXCEPT !.r = Typed(conc, x.r)] : x \in inj},
      conc |-> conc, denyS |-> denyS, denyA |-> denyA,
      qt |-> IF conc["h1"].v = 6 THEN "AAAA" ELSE "A",
-     tag |-> <<lmode, mmode, tmode, cv>>]
+     tag |-> <<lmode, mmode, tmode, cv, so>>]
 
 \* hostile additions: all out of bailiwick for the server that sends them
 Evil == "a9"
@@ -161,8 +167,11 @@ TreeF(tm) == IF tm = "tree34" THEN 3 ELSE 2
 TreeD(tm) == CASE tm = "tree22" -> 2 [] tm = "tree23" -> 3 [] OTHER -> 4
 
 \* parameter records and the internet each stands for
-P(lm, mm, tm, inj, fs, fa, cv) == [lm |-> lm, mm |-> mm, tm |-> tm, inj |-> inj, fs |-> fs, fa |-> fa, cv |-> cv]
-NetOfParams(p) == Net(p.lm, p.mm, p.tm, p.inj, p.fs, p.fa, p.cv)
+P(lm, mm, tm, inj, fs, fa, cv) == [lm |-> lm, mm |-> mm, tm |-> tm, inj |-> inj, fs |-> fs, fa |-> fa, cv |-> cv, so |-> "own"]
+NetOfParams(p) == Net(p.lm, p.mm, p.tm, p.inj, p.fs, p.fa, p.cv, p.so)
+\* negative answers (name error, no data) whose SOA is owned inside / outside the answering server's zone
+SoaParams == {[P(lm, "in", tm, {}, NoFilter, NoFilter, "v4") EXCEPT !.so = so] :
+                 lm \in {"in", "out"}, tm \in {"none", "ent"}, so \in SoaModes}
 \* hostile servers, no filters
 HostileParams(LM, MM, TM) ==
     UNION {{P(lm, mm, tm, inj, NoFilter, NoFilter, "v4") : tm \in TM, inj \in Injections(lm, mm)} : lm \in LM, mm \in MM}
